@@ -261,10 +261,23 @@ fn agg_combo(f: Func, xs: &[NV]) -> Res {
     };
     let mut s = xs.to_vec();
     s.sort_by(cmp_nv);
+    // several arguments may compare equal to the selected one while being different values
+    // (0.0, -0.0, Integer 0): the statements fix the numeric value only, so each of them is acceptable
+    let ties = |k: usize| -> Vec<NV> {
+        let mut out: Vec<NV> = vec![];
+        for v in s.iter().filter(|v| cmp_nv(v, &s[k]) == Ordering::Equal) {
+            for a in pick(v) {
+                if !out.iter().any(|o| same_bits(o, &a)) {
+                    out.push(a);
+                }
+            }
+        }
+        out
+    };
     match f {
-        Func::Min => Res::A(pick(&s[0])),
-        Func::Max => Res::A(pick(&s[s.len() - 1])),
-        Func::Med if s.len() % 2 == 1 => Res::A(pick(&s[s.len() / 2])),
+        Func::Min => Res::A(ties(0)),
+        Func::Max => Res::A(ties(s.len() - 1)),
+        Func::Med if s.len() % 2 == 1 => Res::A(ties(s.len() / 2)),
         Func::Avg | Func::Med => {
             let fs: Vec<f64> = xs.iter().map(|x| x.f()).collect();
             from_q(rf::agg_ref(f, &fs), false)
